@@ -15,18 +15,19 @@ theorem init_quiet (p : Prog) : Quiet p (initState p) :=
 theorem read_specE {p : Prog} (hwf : WF p = true) (hp : MemoOK p) {s : State}
     (h : Quiet p s) (m : Nat) :
     Quiet p (readNode (upd p (fuelFor p)) s m).1 ∧
-    (m < p.length → (s.get m).kind ≠ .eff → (readNode (upd p (fuelFor p)) s m).2 = specVal p s m) := by
+    (MemoTracked p → m < p.length → (s.get m).kind ≠ .eff →
+      (readNode (upd p (fuelFor p)) s m).2 = specVal p s m) := by
   have htrack : track s m = s := by unfold track; rw [h.obs]
   unfold readNode
   rw [htrack]
   simp only
   cases hk : (s.get m).kind with
-  | eff => exact ⟨h, fun _ hne => absurd rfl hne⟩
+  | eff => exact ⟨h, fun _ _ hne => absurd rfl hne⟩
   | sig =>
     simp only
-    refine ⟨h, fun hm _ => ?_⟩
+    refine ⟨h, fun htr hm _ => ?_⟩
     have hc := (h.inv.sigOk m hm hk).1
-    rw [h.inv.clean_correct hwf m hm (by rw [hk]; simp) hc]; rfl
+    rw [h.inv.clean_correct hwf htr m hm (by rw [hk]; simp) hc]; rfl
   | memo =>
     simp only
     have hm : m < p.length := h.inv.memo_lt hk
@@ -35,9 +36,9 @@ theorem read_specE {p : Prog} (hwf : WF p = true) (hp : MemoOK p) {s : State}
     generalize upd p (fuelFor p) s m = r at post
     obtain ⟨s', ch⟩ := r
     simp only at post ⊢
-    refine ⟨⟨post.inv, fun i => (post.running i).trans (h.idle i)⟩, fun _ _ => ?_⟩
+    refine ⟨⟨post.inv, fun i => (post.running i).trans (h.idle i)⟩, fun htr _ _ => ?_⟩
     have hc := post.clean hk
-    rw [post.inv.clean_correct hwf m hm (by rw [post.frame.kind, hk]; simp) hc]
+    rw [post.inv.clean_correct hwf htr m hm (by rw [post.frame.kind, hk]; simp) hc]
     show specVal p s' m = specVal p s m
     apply specVal_congr
     intro i v hi
@@ -109,13 +110,13 @@ theorem effOK_of_wf {p : Prog} (hwf : WF p = true) (ht : bodiesTracked p = true)
 theorem read_eq_scratch {p : Prog} (hwf : WF p = true) (ht : bodiesTracked p = true)
     (ops : List Op) (m : Nat) (hm : m < p.length) (hd : (match p[m]? with | some (.eff _) => false | _ => true) = true) :
     (step p (run p ops) (.read m)).2 = some (specVal p (run p ops) m) := by
-  have h := run_quiet hwf (memoOK_of_wf hwf ht) (effOK_of_wf hwf ht) ops
+  have h := run_quiet hwf (memoOK_of_wf hwf) (effOK_of_wf hwf ht) ops
   simp only [step]
   have hk : ((run p ops).get m).kind ≠ .eff := by
     have hpm : p[m]? = some p[m] := List.getElem?_eq_getElem hm
     rw [h.inv.kind m _ hpm]
     rw [hpm] at hd
     cases hp : p[m] <;> simp_all [kindOf]
-  rw [(read_specE hwf (memoOK_of_wf hwf ht) h m).2 hm hk]
+  rw [(read_specE hwf (memoOK_of_wf hwf) h m).2 (memoTracked_of ht) hm hk]
 
 end Leptos.Reactive
